@@ -45,9 +45,9 @@ func (P) Engine() string { return "E1" }
 
 func (P) Describe() harness.Description {
 	return harness.Description{
-		MustHit: []string{"colliding_orders", "blocked_by_first_blocker", "panic_in_prepare", "panic_in_check", "panic_in_stat", "exit_handler_panicked", "block_error_checked_after_reuse", "pool_object_reused"},
+		MustHit: []string{"colliding_orders", "long_chain_with_ties", "blocked_by_first_blocker", "panic_in_prepare", "panic_in_check", "panic_in_stat", "exit_handler_panicked", "block_error_checked_after_reuse", "pool_object_reused"},
 		Level:   "exploration",
-		Rule: "case = (chain of 0-5 prepare, 0-5 rule-check and 0-5 statistic recording slots with arbitrary and colliding order values, each scripted per entry to pass / return nil / block (fresh or pooled result) / panic; exit handlers that panic; 2-8 entries entered and exited in any order so that pooled contexts and results are recycled under a seeded pool policy). " +
+		Rule: "case = (chain of 0-5 (in 12% of the kinds 6-40) prepare, rule-check and statistic recording slots with arbitrary and colliding order values, each scripted per entry to pass / return nil / block (fresh or pooled result) / panic; exit handlers that panic; 2-8 entries entered and exited in any order so that pooled contexts and results are recycled under a seeded pool policy). " +
 			"Oracle: the call log of every Entry equals the stable sort by order of each slot kind, prepare -> rule check -> statistic; the first blocking rule-check slot defines the returned block error and no later rule-check slot runs; without panics every statistic slot is told the outcome exactly once and the completion exactly when the entry had passed; no panic escapes Entry or Exit and a panicking request is admitted; every returned *BlockError keeps its type, message, rule and value while later entries run. " +
 			"non-trivial = a block and a panic occurred in one run with colliding orders; distinct = hash(config, ops)",
 		Assumptions: []string{"for entries in which a slot or exit handler panicked only 'no panic escapes' and 'the request is admitted' are asserted (the statement exempts statistic notifications under panics)"},
@@ -61,7 +61,13 @@ func (P) Gen(rng *sim.Rng, tier string) *harness.Case {
 	nEnt := rng.Range(2, 8)
 	orders := []uint32{0, 1, 1, 5, 5, 5, 100, 1000, 1000, 4294967295}
 	for kind := 0; kind < 3; kind++ {
-		for i, n := 0, rng.Range(0, 5); i < n; i++ {
+		n := rng.Range(0, 5)
+		if rng.Chance(0.12) {
+			// swarm: now and then a long chain (library sort routines switch algorithm with the length, and
+			// only the short ones are stable by accident)
+			n = rng.Range(6, 40)
+		}
+		for i := 0; i < n; i++ {
 			sp := SlotSpec{Kind: kind, Order: orders[rng.Intn(len(orders))]}
 			for e := 0; e < nEnt; e++ {
 				s := sPass
@@ -265,6 +271,9 @@ func (P) Exec(c *harness.Case) *harness.Outcome {
 		for j := 1; j < len(ids); j++ {
 			if cfg.Slots[ids[j]].Order == cfg.Slots[ids[j-1]].Order {
 				collide = true
+				if len(ids) > 5 {
+					o.Probe("long_chain_with_ties")
+				}
 			}
 		}
 	}
